@@ -75,8 +75,12 @@ def fingerprint(fn: ast.FunctionDef, prog: Optional[Program] = None, mi=None) ->
     for d in fn.decorator_list:
         if isinstance(d, ast.Name) and d.id in ("staticmethod", "classmethod", "property"):
             kind = {"staticmethod": "static", "classmethod": "class", "property": "property"}[d.id]
+    # defaults of the parameters, by position (a default is part of what a call without that argument means)
+    pos = a.posonlyargs + a.args
+    dflt = [None] * (len(pos) - len(a.defaults)) + [ast.unparse(d) for d in a.defaults]
+    dflt += [ast.unparse(d) if d is not None else None for d in a.kw_defaults]
     return {"params": len(a.posonlyargs) + len(a.args) + len(a.kwonlyargs), "callees": sorted(callees), "attrs": sorted(attrs), "strs": sorted(strs), "size": n_nodes,
-            "deco": kind}
+            "deco": kind, "defaults": dflt, "pnames": [x.arg for x in pos + a.kwonlyargs]}
 
 
 def load_baseline_funcs() -> dict:
@@ -1279,6 +1283,8 @@ def normalize_program(prog: Program, world) -> Tuple[Dict[str, ast.Module], dict
                 refs[n.id] = refs.get(n.id, 0) + 1
             elif isinstance(n, ast.Attribute):
                 refs[n.attr] = refs.get(n.attr, 0) + 1
+            elif isinstance(n, ast.alias):
+                refs[n.name.split(".")[-1]] = refs.get(n.name.split(".")[-1], 0) + 1
     removed = []
     for q, cnt in nz.inlined_sites.items():
         fi = prog.funcs.get(q)
